@@ -213,7 +213,7 @@ func without(l []string, x string) []string {
 // Enum is the F-enum family.
 func Enum(c explore.Chooser) *prog.Program {
 	s := &S{C: c}
-	rootPath := prog.Module + "/enums"
+	rootPath := prog.Base() + "/enums"
 	subPath := rootPath + "/sub"
 
 	loc := s.Pick("T1.loc", "analysed-file", "other-file", "sub-package", "both-packages")
